@@ -86,15 +86,15 @@ def registry(rng):
 
 def trade_record():
     from jesse.store import store
-    for side in ('buy', 'sell'):
+    for side, silent in (('buy', False), ('sell', False), ('buy', True), ('sell', True)):
         w = session('futures', leverage=5)
         w['positions']['BTC-USDT'].current_price = 100.0
         o = _mk(side, 'LIMIT', 0.7, 100.0)
-        o.execute()
+        o.execute(silent=silent)
         trades = list(store.completed_trades.tempt_trades.values())
         holding = [t for t in trades if o in t.orders]
         if len(holding) != 1:
-            return f'executed {side} order is recorded in {len(holding)} trades'
+            return f'{side} order executed with silent={silent} is recorded in {len(holding)} trades (expected exactly one)'
         t = holding[0]
         nb, ns = len(t.buy_orders), len(t.sell_orders)
         if (nb, ns) != ((1, 0) if side == 'buy' else (0, 1)):
@@ -124,7 +124,7 @@ def replay(pl):
     ob = pl['obligation']
     rng = random.Random(pl.get('seed', 0))
     if ob.startswith('execute') or ob.startswith('cancel'):
-        d = lifecycle()
+        d = lifecycle() or trade_record()
     elif ob.startswith('registry'):
         d = registry(rng)
     elif ob.startswith('trade-record'):
